@@ -383,29 +383,104 @@ theorem all_lines_once (P : Prog) (s : State) (n : Nat) (hr : Reachable P s)
 
 /-! ## The source still has the structure the models were written against (T-gen) -/
 
-/-- `skel_handle`: the events of `Handle`, as re-extracted from the current source. -/
+/-- `skel_handle`: the two paths of `Handle` (all helpers inlined), as re-extracted from the
+current source: the success path and the error exit of the text handler. -/
 theorem skel_handle : Gen.C19Skel.handle =
-    [("call", "poolGet"), ("defer", "poolPut"), ("call", "reset"), ("call", "clone"),
-     ("call", "addAttrs(h.textAttrs...)"), ("call", "textHandle"), ("if", "err != nil"),
-     ("return", ""), ("endif", ""), ("call", "bufBytes"), ("call", "slice(msg[:len(msg)-1])"),
-     ("call", "newMsg(r.Level, msg)"), ("call", "lock"), ("defer", "unlock"), ("call", "encode"),
-     ("return", "")] := by decide
+    [[("call", Lts.evGet), ("defer", "syncutil.Pool.Put"), ("call", Lts.evReset), ("call", Lts.evAddAttrs),
+      ("call", Lts.evTextHandle), ("assume", "isnil(slog.TextHandler.Handle#1)"), ("call", Lts.evBytes),
+      ("call", Lts.evLock), ("defer", "sync.Mutex.Unlock"), ("call", Lts.evEncode), ("run", Lts.evUnlock),
+      ("run", Lts.evPut), ("return", "")],
+     [("call", Lts.evGet), ("defer", "syncutil.Pool.Put"), ("call", Lts.evReset), ("call", Lts.evAddAttrs),
+      ("call", Lts.evTextHandle), ("assume-not", "isnil(slog.TextHandler.Handle#1)"), ("run", Lts.evPut),
+      ("return", "")]] := by decide +kernel
 
-/-- … and their execution order (defers last, in reverse) is the order of the steps of the
-transition system: `Encode` only between `Lock` and `Unlock`, the pooled buffer used only
-between `Get` and the deferred `Put`, which comes after `Unlock`. -/
-theorem skel_handle_order : Lts.execOrder Gen.C19Skel.handle = Lts.programOrder := by decide
+/-- … and on every path the operations are executed in the order of the steps of the transition
+system: `Encode` only between `Lock` and `Unlock`, the pooled buffer used only between `Get`
+and `Put`, which comes after `Unlock`; `Unlock` and `Put` are deferred calls. -/
+theorem skel_handle_order :
+    Gen.C19Skel.handle.map Lts.pathOps = [Lts.programOrder, Lts.errorOrder] ∧
+    Gen.C19Skel.handle.map Lts.pathDeferred = [[Lts.evUnlock, Lts.evPut], [Lts.evPut]] := by decide +kernel
 
-/-- `skel_withAttrs`: the derived handler shares level, encoder, pool and mutex and gets
-`append(slices.Clip(h.textAttrs), attrs...)`. -/
+/-- `skel_withAttrs`: `WithAttrs` has one path and no operation on a shared object; in the
+handler it returns, encoder, pool and mutex are the receiver's own objects, the level is the
+receiver's, and the attribute slice satisfies the contract `IsolatingConcat` below
+(`append(slices.Clip(h.textAttrs), attrs...)` does, so does an exact-size `make` + `copy`;
+`append` after `slices.Grow` does not). -/
 theorem skel_withAttrs : Gen.C19Skel.withAttrs =
-    ["level=h.level", "encoder=h.encoder", "bufTextPool=h.bufTextPool", "mu=h.mu",
-     "textAttrs=append(slices.Clip(h.textAttrs), attrs...)"] := by decide
+    [[("return", "[]slog.Attr: contents=parent++added; writes=fresh-only; spare=unshared; aliases-argument=no, " ++
+        "json.Encoder: shared, slog.Level: =h.<slog.Level>, sync.Mutex: shared, " ++
+        "syncutil.Pool[{bytes.Buffer,slog.TextHandler}]: shared")]] := by decide +kernel
 
+/-- `Enabled` is `level >= h.level`, the severity is `ERROR` from `slog.LevelError` (8) on, and no
+function of the package writes a field of an existing handler. -/
 theorem skel_enabled_severity :
-    Gen.C19Skel.enabled = "level >= h.level.Level()" ∧
-    Gen.C19Skel.severityCond = "lvl >= slog.LevelError" ∧
-    Gen.C19Skel.severityStrings = ["NORMAL", "ERROR"] := by decide
+    Gen.C19Skel.enabled = [[("return", "(arg2 >= h.<slog.Level>)")]] ∧
+    Gen.C19Skel.severity = "ite((arg2.Level >= 8), \"ERROR\", \"NORMAL\")" ∧
+    Gen.C19Skel.fieldWrites = [] := by decide +kernel
+
+/-! ### The contract recorded for the derived attribute slice
+
+`skel_withAttrs` no longer pins the expression `append(slices.Clip(h.textAttrs), attrs...)` but
+what the translator's slice summary establishes for whatever computes the slice: the result
+reads parent ++ added, and nothing is written into an array that existed before.  That is
+all the attribute theorems use (`append_clip` is their only lemma about `WithAttrs`). -/
+
+/-- "contents=parent++added; writes=fresh-only" on the backing-array heap -/
+def IsolatingConcat (f : Heap → Slice → List Attr → Heap × Slice) : Prop :=
+  ∀ hp s xs, s.wf hp → ∃ ext, (f hp s xs).1 = hp ++ ext ∧ (f hp s xs).2.wf (hp ++ ext) ∧
+    view (hp ++ ext) (f hp s xs).2 = view hp s ++ xs
+
+/-- the model's `append(slices.Clip(s), xs...)` satisfies it, for every growth policy -/
+theorem clipAppend_isolating (pol : Policy) :
+    IsolatingConcat (fun hp s xs => append pol hp (clip s) xs) :=
+  fun hp s xs h => append_clip pol hp s xs h
+
+/-- `make([]T, len(s)+len(xs))` + `copy` + `copy`, `nil` when both are empty -/
+def concatFresh (hp : Heap) (s : Slice) (xs : List Attr) : Heap × Slice :=
+  if s.len + xs.length = 0 then (hp, Slice.nil)
+  else (hp ++ [view hp s ++ xs], { arr := hp.length, len := s.len + xs.length, cap := s.len + xs.length })
+
+theorem concatFresh_isolating : IsolatingConcat concatFresh := by
+  intro hp s xs h
+  have hl : (view hp s).length = s.len := view_length h
+  unfold concatFresh
+  by_cases h0 : s.len + xs.length = 0
+  · have hs : s.len = 0 := by omega
+    have hx : xs = [] := List.eq_nil_of_length_eq_zero (by omega)
+    refine ⟨[], ?_, ?_, ?_⟩
+    · simp [h0]
+    · simp only [h0, if_true, List.append_nil]; exact Slice.wf_nil hp
+    · simp [hx, view, Slice.nil, hs]
+  · refine ⟨[view hp s ++ xs], ?_, ?_, ?_⟩
+    · rw [if_neg h0]
+    · simp only [h0, if_false]
+      refine ⟨Nat.le_refl _, ?_⟩
+      simp only [arrayOf_length, List.length_append, hl]
+      exact Nat.le_refl _
+    · simp only [h0, if_false, view, arrayOf_length]
+      have : (view hp s ++ xs).length = s.len + xs.length := by simp [hl]
+      rw [← this]; exact List.take_length
+
+/-- `sibling_isolation` for ANY computation of the derived slice that satisfies the contract. -/
+theorem sibling_isolation_of_contract (f : Heap → Slice → List Attr → Heap × Slice)
+    (hf : IsolatingConcat f) (hp : Heap) (s : Slice) (as₁ as₂ : List Attr) (hw : s.wf hp) :
+    let d₁ := f hp s as₁
+    let d₂ := f d₁.1 s as₂
+    view d₂.1 d₁.2 = view hp s ++ as₁ ∧ view d₂.1 d₂.2 = view hp s ++ as₂ ∧ view d₂.1 s = view hp s := by
+  intro d₁ d₂
+  obtain ⟨e1, a1, a2, a3⟩ := hf hp s as₁ hw
+  have hw1 : s.wf d₁.1 := by show s.wf (f hp s as₁).1; rw [a1]; exact Slice.wf_ext hw e1
+  obtain ⟨e2, b1, _, b3⟩ := hf d₁.1 s as₂ hw1
+  have hd1 : d₁.1 = hp ++ e1 := a1
+  have hd2 : d₂.1 = d₁.1 ++ e2 := b1
+  refine ⟨?_, ?_, ?_⟩
+  · rw [hd2, hd1]
+    have : d₁.2.wf (hp ++ e1) := a2
+    rw [view_ext this]; exact a3
+  · rw [hd2]
+    have : view (d₁.1 ++ e2) d₂.2 = view d₁.1 s ++ as₂ := b3
+    rw [this, hd1, view_ext hw]
+  · rw [hd2, view_ext hw1, hd1, view_ext hw]
 
 /-! ## The hypotheses are satisfiable -/
 
